@@ -66,7 +66,6 @@ type modelOut struct {
 		Kind      string `json:"kind"`
 		Status    int    `json:"status"`
 		ID        *Ident `json:"id"`
-		KeysLower bool   `json:"keysLower"`
 		Carried   bool   `json:"carried"`
 	} `json:"expect"`
 	ImpRequested bool     `json:"impRequested"`
@@ -162,8 +161,8 @@ func canonCalls(ds []Deny) string {
 
 var gw *gateway
 
-// known limitations of the wire format, recorded in known_findings.txt: report one (shrunk) witness per run
-var knownClass = map[string]bool{"c02.extra-key-case": true, "c02.value-not-carried": true}
+// the known limitation of the wire format, recorded in known_findings.txt: report one (shrunk) witness per run
+var knownClass = map[string]bool{"c02.value-not-carried": true}
 
 type verdict struct {
 	ok      bool
@@ -382,7 +381,7 @@ func runCase(c *rig.Ctx, cs Case, origin string) bool {
 	if cs.Upgrade {
 		bucket += ":upgrade"
 	}
-	if m.Expect.Kind == "forward" && (!m.Expect.KeysLower || !m.Expect.Carried) {
+	if m.Expect.Kind == "forward" && !m.Expect.Carried {
 		bucket += ":wire-cannot-carry"
 	}
 	c.Case(rig.Canon(cs), nontrivial, bucket, func() interface{} {
